@@ -96,9 +96,14 @@ def expand(item, seed):
         for i in vals_i:
             for t in vals_t:
                 if not accepted(i, t):
-                    yield {"interval": int(i * S), "timeout": None if t is None else int(t * S), "payload": "", "refused": True,
-                           "pong": {"mode": "const", "lat": 0}, "traffic": {"mode": "none"}, "pings": 1,
-                           "policy": {"kind": "coop", "p_call": 0.0}, "seed": 1}
+                    for disp in (None, "rel"):
+                        # (the refusal must come before connecting whichever loop will drive the connection)
+                        sc_ = {"interval": int(i * S), "timeout": None if t is None else int(t * S), "payload": "", "refused": True,
+                               "pong": {"mode": "const", "lat": 0}, "traffic": {"mode": "none"}, "pings": 1,
+                               "policy": {"kind": "coop", "p_call": 0.0}, "seed": 1}
+                        if disp:
+                            sc_["dispatcher"] = disp
+                        yield sc_
     else:
         for k in range(item["start"], item["start"] + item["count"]):
             yield gen(random.Random(derive_seed(seed, ID, k)))
@@ -255,7 +260,9 @@ def run(sc, choices=None):
         raise InvalidScenario("needs a ping timeout")
     if second_conn == "second_run_timeout_only" and silent:
         raise InvalidScenario("no pings are sent in that run: nobody can fall silent")
-    disp = sc.get("dispatcher", "builtin") if not refused else "builtin"
+    disp = sc.get("dispatcher", "builtin")
+    if refused and disp == "rel":
+        pass  # only the refusal itself is judged
     if disp not in ("builtin", "rel") or (disp == "rel" and (sc.get("tls") or pong.get("partial") or second_conn in ("second_run", "second_run_timeout_only"))):
         raise InvalidScenario("dispatcher")
     conns = [judged]
